@@ -2,7 +2,7 @@
 C05 (source tie) — the hand-written model of `Routes::process_updates` (`KM.Ca.processUpdates`,
 Ca/Roa.lean: the fold of `removeStep` over the removals, then of `addStep` over the additions, then
 the all-or-nothing verdict) equals the definition that the translator `pure_fns` regenerates from
-`/repo/src/server/ca/roa.rs` on every run (`Generated/PureFns.lean`,
+`/repo/src/server/ca/roa.rs` on every run (`Generated/PureFnsC05.lean`,
 `KM.Gen.Routes.process_updates` with its two loops).
 
 `roa_delta_iff`, `roa_delta_errors_exact`, `roa_delta_all_or_nothing` (Props/C05.lean) are about
@@ -19,7 +19,7 @@ get?`), the key of a payload ↦ the payload, `RoaDeltaError::add_*` ↦ appendi
 lists, `is_held_by(all_resources)` ↦ the parameter `held`, `max_length_valid` ↦ `Input.maxLengthValid`
 (itself tied to the source by `Props/C16SrcFns.lean`).
 -/
-import KrillModel.Generated.PureFns
+import KrillModel.Generated.PureFnsC05
 import KrillModel.Ca.Roa
 namespace KM.Props.C05Src
 open KM.Ca KM.Bgp KM.Input
